@@ -77,4 +77,96 @@ theorem cleanTargets_rmdir (t : Name) (targets : List Path) (st : World × List 
     (rmTarget false t (l1.foldl (rmTarget false t) st) d)
   exact fun h => hstep (hf2.dsub d h)
 
+/-! ### without symbolic links the command never reaches the `os.rmdir`-on-a-link crash -/
+/-- no symbolic link in the world, no crash event so far -/
+def NoLinkNoCrash (st : World × List Ev) : Prop := st.1.links = [] ∧ ∀ e, e ∈ st.2 → isCrash e = false
+
+theorem rmTarget_nlnc (dry : Bool) (t : Name) (st : World × List Ev) (p : Path) (h : NoLinkNoCrash st) :
+    NoLinkNoCrash (rmTarget dry t st p) := by
+  refine ⟨rmTarget_links_nil dry t st p h.1, ?_⟩
+  unfold rmTarget
+  have hl : (linkDest st.1 p).isSome = false := by simp [linkDest, h.1, alookup]
+  simp only [hl, Bool.false_eq_true, if_false]
+  intro e he
+  split at he
+  · simp only [List.mem_append, List.mem_singleton] at he
+    rcases he with he | he
+    · exact h.2 e he
+    · rw [he]; rfl
+  · split at he
+    · split at he <;>
+      · simp only [List.mem_append, List.mem_singleton] at he
+        rcases he with he | he
+        · exact h.2 e he
+        · rw [he]; rfl
+    · exact h.2 e he
+
+theorem applyEff_links (e : Option Eff) (w : World) : (applyEff e w).links = w.links := by
+  cases e with
+  | none => rfl
+  | some e =>
+    cases e with
+    | rm p => rfl
+    | mk p => simp only [applyEff]; split <;> rfl
+
+theorem runAct_nlnc (dry : Bool) (t : Name) (k : Nat) (a : Act) (st : World × List Ev) (h : NoLinkNoCrash st) :
+    NoLinkNoCrash (runAct dry t k a st) := by
+  unfold runAct
+  split
+  · refine ⟨?_, ?_⟩
+    · cases dry
+      · simp only [Bool.false_eq_true, if_false]; rw [applyEff_links]; exact h.1
+      · exact h.1
+    · intro e he
+      simp only [List.mem_append, List.mem_cons, List.not_mem_nil, or_false] at he
+      rcases he with he | he | he
+      · exact h.2 e he
+      · rw [he]; rfl
+      · rw [he]; split <;> rfl
+  · refine ⟨h.1, ?_⟩
+    intro e he
+    simp only [List.mem_append, List.mem_singleton] at he
+    rcases he with he | he
+    · exact h.2 e he
+    · rw [he]; rfl
+
+theorem runActs_nlnc (dry : Bool) (t : Name) : ∀ (as : List Act) (k : Nat) (st : World × List Ev),
+    NoLinkNoCrash st → NoLinkNoCrash (runActs dry t k as st) := by
+  intro as
+  induction as with
+  | nil => intro k st h; exact h
+  | cons a as ih => intro k st h; simp only [runActs]; exact ih _ _ (runAct_nlnc dry t k a st h)
+
+theorem foldl_nlnc {γ : Type} (g : World × List Ev → γ → World × List Ev)
+    (hg : ∀ st x, NoLinkNoCrash st → NoLinkNoCrash (g st x)) :
+    ∀ (l : List γ) (st : World × List Ev), NoLinkNoCrash st → NoLinkNoCrash (l.foldl g st) := by
+  intro l
+  induction l with
+  | nil => intro st h; exact h
+  | cons x l ih => intro st h; simp only [List.foldl_cons]; exact ih _ (hg st x h)
+
+theorem taskClean_nlnc (tbl : Table) (dry : Bool) (t : Name) (st : World × List Ev) (h : NoLinkNoCrash st) :
+    NoLinkNoCrash (taskClean tbl dry t st) := by
+  unfold taskClean
+  cases tbl[t]? with
+  | none => exact h
+  | some tk =>
+    simp only
+    cases tk.kind with
+    | nothing => exact h
+    | targets => exact foldl_nlnc _ (fun st p hh => rmTarget_nlnc dry t st p hh) _ _ h
+    | actions as => exact runActs_nlnc dry t as 0 st h
+
+theorem cleanTasks_nlnc (tbl : Table) (dry forget : Bool) (order : List Name) (w : World) (h : w.links = []) :
+    NoLinkNoCrash (cleanTasks tbl dry forget order w) := by
+  unfold cleanTasks
+  refine foldl_nlnc _ ?_ order (w, []) ⟨h, fun e he => by simp at he⟩
+  intro st t hh
+  have := taskClean_nlnc tbl dry t st hh
+  unfold cleanOne
+  simp only
+  split
+  · exact ⟨this.1, this.2⟩
+  · exact this
+
 end DoitModel.Clean
